@@ -928,7 +928,8 @@ def previous_results(history, epoch):
                 worker = None
                 if m:
                     worker = m.group(2) if m.group(1) == "localhost" else m.group(1) + "." + m.group(2)
-                out.append((test_class(r["name"]), worker, r["status"].lower()))
+                from travsim.resolver import strip_set
+                out.append((strip_set(test_class(r["name"])), worker, r["status"].lower()))
     return out
 
 
